@@ -360,7 +360,11 @@ struct ReplyWorld : World {
 		case 2: { int r1, r2; { Reenter s; r1 = mpt_context_reply(ev->reply, 0, "%s", t.c_str()); r2 = mpt_context_reply(ev->reply, 1, "%s", "again"); }
 			if (r1 >= 0 && r2 >= 0) pend("second-reply", "two explicit replies to request r%u were both accepted", q->serial); return 0; }
 		case 6: { Bytes b = {(uint8_t) msgtype::Answer, 0}; b.insert(b.end(), t.begin(), t.end()); while (b.size() < 302) b.push_back((uint8_t) ('a' + b.size() % 23));
-			message m; m.base = b.data(); m.used = b.size(); m.cont = 0; m.clen = 0; { Reenter s; ev->reply->reply(&m); } return 0; }
+			// the answer as a fragmented message: sometimes with an empty first fragment, sometimes with an empty one in the middle
+			message m; struct iovec fr[2]; m.base = b.data(); m.used = b.size(); m.cont = 0; m.clen = 0;
+			if (q->serial % 3 == 0) { m.used = 0; fr[0].iov_base = b.data(); fr[0].iov_len = b.size(); m.cont = fr; m.clen = 1; C.st->hit("probe:reply_with_empty_first_fragment"); }
+			else if (q->serial % 3 == 1) { m.used = 100; fr[0].iov_base = b.data() + 100; fr[0].iov_len = 0; fr[1].iov_base = b.data() + 100; fr[1].iov_len = b.size() - 100; m.cont = fr; m.clen = 2; C.st->hit("probe:reply_with_empty_middle_fragment"); }
+			{ Reenter s; ev->reply->reply(&m); } return 0; }
 		case 3: return -3;
 		case 4: case 5: { reply_context_detached *d; { Reenter s; d = ev->reply->defer(); }
 			if (d) { if (q->late) q->more_late.push_back(q->late); q->late = d; C.st->hit("probe:deferred"); } else { q->behaviour = 0; C.st->hit("probe:defer_refused"); }
